@@ -25,19 +25,20 @@ const (
 // Task is one schedulable goroutine: a client the harness started, or a
 // goroutine started by the system under test that reached a yield point.
 type Task struct {
-	Name    string
-	goid    int64
-	parent  *Task
-	resume  chan struct{}
-	state   taskState
-	label   string
-	blocked string
-	auto    bool
-	atomic  bool
-	entry   string
-	Yields  int
-	Panic   any
-	PanicAt string
+	Name       string
+	goid       int64
+	parent     *Task
+	resume     chan struct{}
+	state      taskState
+	label      string
+	blocked    string
+	auto       bool
+	atomic     bool
+	stallUntil time.Time
+	entry      string
+	Yields     int
+	Panic      any
+	PanicAt    string
 
 	// per-task scratch the seams use (current operation id for fault
 	// attribution etc.); only touched by the task itself or by root while the
@@ -70,6 +71,13 @@ type Policy struct {
 	// the order of the background workers' intervals: every simulated second
 	// costs their polling.
 	IdleMax time.Duration
+	// StallDen > 0: when a background task (a goroutine the system started) is
+	// about to be resumed, with probability 1/StallDen it is instead left
+	// parked for a duration up to StallMax of simulated time - a stalled
+	// worker: leases expire, other workers take over, then it continues where
+	// it stopped.
+	StallDen int
+	StallMax time.Duration
 }
 
 // PointObserver sees every verifhook.Point of the system under test before the
@@ -97,12 +105,14 @@ type Sched struct {
 	AtomicMarkers []string
 	AtomicYields  int
 
-	Step       int
-	MaxSteps   int
-	StuckAfter time.Duration
-	deadline   time.Time
-	current    *Task
-	excl       *Task
+	nextStallEnd time.Time
+	Stalls       int
+	Step         int
+	MaxSteps     int
+	StuckAfter   time.Duration
+	deadline     time.Time
+	current      *Task
+	excl         *Task
 
 	logHash  interface{ Write([]byte) (int, error) }
 	hasher   hashSum
@@ -353,12 +363,19 @@ func (s *Sched) eligible() []*Task {
 	s.mu.Lock()
 	defer s.mu.Unlock()
 	s.nameNewTasks()
+	s.nextStallEnd = time.Time{}
 	var out []*Task
 	for _, t := range s.tasks {
 		if t.state != stParked || t.blocked != "" {
 			continue
 		}
 		if s.excl != nil && !t.descendsFrom(s.excl) {
+			continue
+		}
+		if !t.stallUntil.IsZero() && time.Now().Before(t.stallUntil) {
+			if s.nextStallEnd.IsZero() || t.stallUntil.Before(s.nextStallEnd) {
+				s.nextStallEnd = t.stallUntil
+			}
 			continue
 		}
 		out = append(out, t)
@@ -471,6 +488,14 @@ func (s *Sched) Run(done func() bool) error {
 				return fmt.Errorf("%w: %s", ErrStuck, s.describe())
 			}
 			max := time.Hour
+			if !s.nextStallEnd.IsZero() {
+				if r := time.Until(s.nextStallEnd); r < max {
+					max = r
+				}
+				if max <= 0 {
+					max = time.Microsecond
+				}
+			}
 			if !s.deadline.IsZero() {
 				if r := time.Until(s.deadline); r < max {
 					max = r
@@ -501,6 +526,19 @@ func (s *Sched) Run(done func() bool) error {
 		if t == nil {
 			s.IdleSteps++
 			s.idleFor(s.idleDuration())
+			continue
+		}
+		if s.Policy.StallDen > 0 && t.auto && s.excl == nil && s.Tape.Chance(1, s.Policy.StallDen) {
+			max := s.Policy.StallMax
+			if max <= 0 {
+				max = 5 * time.Second
+			}
+			d := time.Duration(int64(max) / 1000 * int64(1+s.Tape.Int(1000)))
+			s.mu.Lock()
+			t.stallUntil = time.Now().Add(d)
+			s.Stalls++
+			s.logf("%d %d stall %s %s %d", s.Step, time.Since(s.start).Nanoseconds(), t.Name, t.label, int64(d))
+			s.mu.Unlock()
 			continue
 		}
 		s.resumeTask(t)
